@@ -87,7 +87,10 @@ fn args_for(t: &Ty) -> Vec<Variable> {
         Ty::Str => STRINGS.iter().map(|s| Variable::String((*s).into())).collect(),
         Ty::Bool => vec![Variable::Bool(true), Variable::Bool(false)],
         Ty::Void => vec![Variable::Void],
-        Ty::Any => eval_all(&["1", "\"s\"", "1.0", "2.5", "true", "()", "[1, \"a\", 2.0]", "(1, \"b\", [2.5])", "[]", "[[1.0]]", "mut 1", "struct{}"]),
+        Ty::Any => eval_all(&[
+            "1", "\"s\"", "1.0", "2.5", "true", "()", "[1, \"a\", 2.0]", "(1, \"b\", [2.5])", "[]", "[[1.0]]", "mut 1", "struct{}", "mut \"a b\"", "mut 2.0", "mut any \"1\"", "mut any 1",
+            "mut [1.5, 2.0]", "(mut 2.0, 1)", "[mut 2.0]", "mut mut 1.0", "mut (1.0, 2)", "mut \"\"",
+        ]),
         Ty::Union(ms) => ms.iter().flat_map(args_for).collect(),
         Ty::Arr(e) => match &**e {
             Ty::Int => {
@@ -116,8 +119,16 @@ fn args_for(t: &Ty) -> Vec<Variable> {
                 _ => Ty::Any,
             };
             match elem {
-                Ty::Int => eval_all(&["[]~", "[7]~", "[12, 10, 6]~", "[-1, 9223372036854775807]~", "[0, 5]~", "[3, 3, 3, 3]~"]),
-                Ty::Float => eval_all(&["[]~", "[1.5]~", "[0.1, 0.2, 0.3]~", "[1e308, 1e308]~", "[2.0, 0.0, 4.0]~"]),
+                Ty::Int => eval_all(&[
+                    "[]~", "[7]~", "[12, 10, 6]~", "[-1, 9223372036854775807]~", "[0, 5]~", "[3, 3, 3, 3]~", "[9223372036854775807, 2, 0]~", "[-1, -1, -1]~",
+                    "[(-9223372036854775807 - 1), -1]~", "[0, 0]~", "[1, 0, 7]~",
+                ]),
+                Ty::Float => eval_all(&[
+                    "[]~", "[1.5]~", "[0.1, 0.2, 0.3]~", "[1e308, 1e308]~", "[2.0, 0.0, 4.0]~",
+                    // a zero followed by a factor that changes it (sign, NaN), sums that cancel, NaN in the middle
+                    "[0.0, -2.0]~", "[-0.0, 3.0]~", "[0.0, 1.0 / 0.0]~", "[0.0, 0.0 / 0.0]~", "[2.0, 0.0, -1.0]~", "[-0.0, -0.0]~", "[1e16, 1.0, -1e16]~",
+                    "[1.0, 0.0 / 0.0, 2.0]~", "[1.0 / 0.0, -1.0 / 0.0]~", "[-0.0]~",
+                ]),
                 Ty::Bool => eval_all(&["[]~", "[true]~", "[false]~", "[true, false, true]~", "[false, false]~", "[true, true]~"]),
                 Ty::Str => eval_all(&["[]~", "[\"a\"]~", "[\"ab\", \"\", \"ż\"]~"]),
                 _ => eval_all(&["[]~", "[1]~"]),
@@ -291,6 +302,16 @@ fn render(v: &Variable, top: bool) -> Option<String> {
         Variable::Void => "()".into(),
         Variable::Array(a) => format!("[{}]", a.iter().map(|x| render(x, false)).collect::<Option<Vec<_>>>()?.join(", ")),
         Variable::Tuple(t) => format!("({})", t.iter().map(|x| render(x, false)).collect::<Option<Vec<_>>>()?.join(", ")),
+        // a cell shows its declared type and its content the way every other container shows its
+        // elements (the README's `prints (4, "rgg", 56)`: the literal form)
+        Variable::Mut(m) => {
+            let content = m.variable.read().ok()?.clone();
+            let inner = match &content {
+                Variable::String(s) => lit::escape_string(s),
+                other => render(other, false)?,
+            };
+            format!("mut {} {inner}", m.var_type)
+        }
         _ => return None,
     })
 }
@@ -736,8 +757,15 @@ fn check_pure(path: &str, stats: &mut Stats) -> Verdict {
             _ => Ty::Any,
         };
         let texts: &[&str] = match elem {
-            Ty::Int => &["[]", "[7]", "[12, 10, 6]", "[-1, 9223372036854775807]", "[0, 5]", "[3, 3, 3, 3]", "[2, 4611686018427387904, 3]"],
-            Ty::Float => &["[]", "[1.5]", "[0.1, 0.2, 0.3]", "[1e308, 1e308]", "[2.0, 0.0, 4.0]", "[-0.0]"],
+            Ty::Int => &[
+                "[]", "[7]", "[12, 10, 6]", "[-1, 9223372036854775807]", "[0, 5]", "[3, 3, 3, 3]", "[2, 4611686018427387904, 3]", "[9223372036854775807, 2, 0]", "[-1, -1, -1]",
+                "[(-9223372036854775807 - 1), -1]", "[0, 0]", "[1, 0, 7]",
+            ],
+            // (a zero followed by a factor that changes it - sign, NaN -, sums that cancel, NaN in the middle)
+            Ty::Float => &[
+                "[]", "[1.5]", "[0.1, 0.2, 0.3]", "[1e308, 1e308]", "[2.0, 0.0, 4.0]", "[-0.0]", "[0.0, -2.0]", "[-0.0, 3.0]", "[0.0, 1.0 / 0.0]", "[0.0, 0.0 / 0.0]",
+                "[2.0, 0.0, -1.0]", "[-0.0, -0.0]", "[1e16, 1.0, -1e16]", "[1.0, 0.0 / 0.0, 2.0]", "[1.0 / 0.0, -1.0 / 0.0]",
+            ],
             Ty::Bool => &["[]", "[true]", "[false]", "[true, false, true]", "[false, false]", "[true, true]", "[false, true]"],
             Ty::Str => &["[]", "[\"a\"]", "[\"ab\", \"\", \"ż\"]"],
             _ => &["[]"],
